@@ -1,5 +1,6 @@
 import Driver.Common
 import Driver.GlobalIndex
+import Driver.Epoch
 open Driver Aggkit
 
 def keccakStep (_ : Unit) (ws : List String) : Unit × String :=
@@ -14,4 +15,5 @@ def main (args : List String) : IO UInt32 := do
   match args with
   | ["keccak"] => loop inp keccakStep (); return 0
   | ["globalindex"] => loop inp Driver.GlobalIndex.step (); return 0
+  | ["epoch"] => loop inp Driver.Epoch.step {}; return 0
   | _ => IO.eprintln "usage: aggkit_driver <scenario>"; return 2
